@@ -460,3 +460,7 @@ wmw_flags.rule_id = "C14.WMW-flags"
 pdom_notify.rule_id = "C14.PDOM-notify"
 
 RULES = [sign_invalid_children, prov_edge_owner, guard_value, rcb_swap, dtab_latch, pdom_sched, pdom_link_callback, data_swap, wmw_flags, pdom_notify]
+
+# control signature of the bookkeeping effects this property depends on (rules/ctrlsig.py)
+from .ctrlsig import make_rule as _ctrl_rule  # noqa: E402
+RULES.append(_ctrl_rule("C14"))
